@@ -71,7 +71,7 @@ def _gen_page(rng, big):
         n = rng.randint(10, 60)
     else:
         n = rng.randint(60, 200) if big else rng.randint(30, 90)
-    uuids = rng.sample(range(1, 10 ** rng.choice([2, 4, 9, 14])), n) if n else []
+    uuids = rng.sample(range(1, 10 ** rng.choice([e for e in (2, 4, 9, 14) if 10 ** e > 2 * n + 1])), n) if n else []
     # timestamps: tie structure
     style = rng.random()
     if style < 0.2:
